@@ -187,19 +187,29 @@ func checkC10(c *Ctx) {
 				early = append(early, f.Name())
 			}
 		}
-		// error path returns before any write
-		errRetOK := false
-		for _, r := range Returns(fn) {
-			atoms := AtomStrings(Guards(r))
-			if containsS(atoms, "encodeReflected(enc, "+fn.Params[len(fn.Params)-1].Name()+")#1 != nil") {
-				errRetOK = true
-				for _, cl := range Calls(fn) {
-					if f := CalleeFunc(cl); f != nil && (f.Name() == "addKey" || f.Name() == "addElementSeparator") && Dominates(cl, r) {
-						errRetOK = false
-					}
+		// nothing is written unless the encoding succeeded
+		errRetOK := true
+		encD := Desc(enc.(ssa.Value)) + "#1 == nil"
+		nw := 0
+		for _, cl := range Calls(fn) {
+			f := CalleeFunc(cl)
+			if f == nil || cl == enc {
+				continue
+			}
+			isW := f.Name() == "addKey" || f.Name() == "addElementSeparator"
+			for _, bc := range encBufCalls(c, fn) {
+				if ssa.Instruction(bc.call) == cl && isMutatingBufMethod(bc.m) {
+					isW = true
+				}
+			}
+			if isW {
+				nw++
+				if !containsS(AtomStrings(Guards(cl)), encD) {
+					errRetOK = false
 				}
 			}
 		}
+		errRetOK = errRetOK && nw >= 2
 		c.Check(len(early) == 0 && errRetOK, "R10.3", fn.String(), "encodes-before-writing", enc.Pos(), "the reflected value is encoded before the key/separator is written and an encoding error returns with the line untouched (writes before encoding: %v)", early)
 	}
 
